@@ -68,7 +68,7 @@ def impl_merge(tmp, address, size, files, via="main"):
     if files is not None:
         paths = []
         for i, txt in enumerate(files):
-            p = os.path.join(tmp, f"slot{i}.hex")
+            p = core.tricky_file(tmp, f"slot{i}.hex", txt.encode(), decoy=b":00000001FF\n") if i % 2 == 0 else os.path.join(tmp, f"slot{i}.hex")
             with open(p, "w") as fh:
                 fh.write(txt)
             paths.append(p)
